@@ -14,6 +14,11 @@ Pure `ast` over every module of src/datamodel_code_generator. The analysis is de
     (classified by what binds them at module level: import, def, class, constant, mutable, unknown) and the attributes it reads
     through its first parameter.
 (c) classMutables: dict/list/set displays or constructor calls assigned in a class body.
+(b') per memoised function also: the source text of its return annotation and how often its name is loaded anywhere in the
+    package — a process-wide cache hands the SAME object to every caller, so a result that is not immutable (dict, list, `Any`, an
+    object) must be reviewed (Model/Determinism.reviewedCacheReturns).
+(e) listingSites: every call of a directory-listing primitive (`rglob`, `glob`, `iglob`, `iterdir`, `os.walk`, `os.fwalk`,
+    `os.listdir`, `os.scandir`) with whether it is the first argument of `sorted(` and with which `key=`.
 (d) memoClasses / memoValueWrites: the package classes whose INSTANCES are shared process-wide — returned by a memoised function
     (`Import.from_full_path -> Import`) or bound to a module-level name (`IMPORT_DATE = Import.from_full_path(...)`) — with their
     declared fields, and every statement that stores to (or deletes) an attribute with one of those field names, or calls
@@ -99,6 +104,18 @@ class CacheSite:
     params: list[str]
     free: list[tuple[str, str]]  # (name, class)
     self_attrs: list[str]
+    line: int
+    returns: str = ""   # source text of the return annotation ("" when there is none)
+    callers: int = 0    # loads of the function's name anywhere in the package (outside its own definition line)
+
+
+@dataclass
+class ListingSite:
+    file: str
+    func: str
+    call: str       # source text of the called expression: `self.source.rglob`, `os.walk`, …
+    is_sorted: bool  # the call is the first argument of `sorted(`
+    key: str        # source text of that sorted()'s key= argument ("" = the natural, total order of the entries)
     line: int
 
 
@@ -505,6 +522,66 @@ def _memo_decorator(fn) -> str:
     return ""
 
 
+def _annotation_text(ann: ast.AST | None) -> str:
+    if ann is None:
+        return ""
+    if isinstance(ann, ast.Constant) and isinstance(ann.value, str):
+        return ann.value.strip()
+    return ast.unparse(ann)
+
+
+def _loads_of(trees: dict[str, ast.AST], name: str) -> int:
+    n = 0
+    for tree in trees.values():
+        for x in ast.walk(tree):
+            if isinstance(x, ast.Name) and x.id == name and isinstance(x.ctx, ast.Load):
+                n += 1
+            elif isinstance(x, ast.Attribute) and x.attr == name and isinstance(x.ctx, ast.Load):
+                n += 1
+            elif isinstance(x, ast.alias) and x.name == name:
+                n += 1
+            elif isinstance(x, ast.Constant) and x.value == name:   # getattr(obj, "name") and the like
+                n += 1
+    return n
+
+
+LISTING_CALLS = {"rglob", "glob", "iglob", "iterdir", "walk", "fwalk", "listdir", "scandir"}
+
+
+def listing_sites() -> list[ListingSite]:
+    out: list[ListingSite] = []
+    for p in _files():
+        file = str(p.relative_to(SRC))
+        tree = ast.parse(p.read_text())
+        parent: dict[int, ast.AST] = {}
+        for q in ast.walk(tree):
+            for c in ast.iter_child_nodes(q):
+                parent[id(c)] = q
+
+        def visit(node, scope):
+            for ch in ast.iter_child_nodes(node):
+                sc = [*scope, ch.name] if isinstance(ch, (ast.FunctionDef, ast.AsyncFunctionDef, ast.ClassDef)) else scope
+                if isinstance(ch, ast.Call):
+                    fn = ch.func
+                    name = fn.attr if isinstance(fn, ast.Attribute) else fn.id if isinstance(fn, ast.Name) else ""
+                    if name in LISTING_CALLS:
+                        par = parent.get(id(ch))
+                        is_sorted = isinstance(par, ast.Call) and isinstance(par.func, ast.Name) and par.func.id == "sorted" and bool(par.args) and par.args[0] is ch
+                        key = ""
+                        if is_sorted:
+                            for kw in par.keywords:
+                                if kw.arg == "key":
+                                    key = ast.unparse(kw.value)
+                                elif kw.arg == "reverse":
+                                    pass
+                        out.append(ListingSite(file, ".".join(scope) or "<module>", ast.unparse(fn), is_sorted, key, ch.lineno))
+                visit(ch, sc)
+
+        visit(tree, [])
+    out.sort(key=lambda s: (s.file, s.line, s.call))
+    return out
+
+
 def analyse() -> tuple[list[Site], list[CacheSite], list[ClassMutable]]:
     trees = {str(p.relative_to(SRC)): ast.parse(p.read_text()) for p in _files()}
     facts = _collect_facts(trees)
@@ -523,7 +600,8 @@ def analyse() -> tuple[list[Site], list[CacheSite], list[ClassMutable]]:
                     deco = _memo_decorator(ch)
                     if deco:
                         params, free, attrs = _free_names(ch)
-                        caches.append(CacheSite(file, ".".join([*scope, ch.name]), deco, params, [(n, bindings.get(n, "unknown")) for n in free], attrs, ch.lineno))
+                        caches.append(CacheSite(file, ".".join([*scope, ch.name]), deco, params, [(n, bindings.get(n, "unknown")) for n in free], attrs, ch.lineno,
+                                                returns=_annotation_text(ch.returns), callers=_loads_of(trees, ch.name)))
                     walk(ch, [*scope, ch.name])
                 elif isinstance(ch, ast.ClassDef):
                     for st in ch.body:
@@ -634,16 +712,18 @@ def generate() -> str:
         "def setSites : List SetSite :=\n  [" + ",\n   ".join(rows) + "]\n"
     )
     out.append(
-        "structure CacheSite where\n  file : Nat\n  func : Nat\n  decorator : Nat\n  params : List Nat\n  free : List (Nat × Nat)\n  selfAttrs : List Nat\n  deriving Repr, DecidableEq\n"
+        "structure CacheSite where\n  file : Nat\n  func : Nat\n  decorator : Nat\n  params : List Nat\n  free : List (Nat × Nat)\n  selfAttrs : List Nat\n"
+        "  returns : Nat\n  callers : Nat\n  deriving Repr, DecidableEq\n"
     )
     rows = []
     for c in caches:
         free = "[" + ", ".join(f"({k(n)}, {k(cl)})" for n, cl in c.free) + "]"
         rows.append(
-            f"{{ file := {k(c.file)}, func := {k(c.func)}, decorator := {k(c.decorator)}, params := [{', '.join(k(p) for p in c.params)}], free := {free}, selfAttrs := [{', '.join(k(a) for a in c.self_attrs)}] }}"
+            f"{{ file := {k(c.file)}, func := {k(c.func)}, decorator := {k(c.decorator)}, params := [{', '.join(k(p) for p in c.params)}], free := {free}, selfAttrs := [{', '.join(k(a) for a in c.self_attrs)}], returns := {k(c.returns)}, callers := {c.callers} }}"
         )
     out.append(
-        "/-- every memoised function: parameters, free names with what binds them at module level, attributes read through self/cls -/\n"
+        "/-- every memoised function: parameters, free names with what binds them at module level, attributes read through self/cls,\n"
+        "return annotation, number of loads of its name in the package -/\n"
         "def cacheSites : List CacheSite :=\n  [" + ",\n   ".join(rows) + "]\n"
     )
     rows = [f"({k(m.file)}, {k(m.cls)}, {k(m.attr)}, {k(m.kind)})" for m in muts]
@@ -663,6 +743,18 @@ def generate() -> str:
         "/-- every store to / delete of an attribute named like a field of such a class, and every dynamic setattr:\n"
         "(file, function, target, attribute) -/\n"
         "def memoValueWrites : List (Nat × Nat × Nat × Nat) :=\n  [" + ",\n   ".join(rows) + "]\n"
+    )
+    out.append(
+        "structure ListingSite where\n  file : Nat\n  func : Nat\n  call : Nat\n  isSorted : Bool\n  key : Nat\n  deriving Repr, DecidableEq\n"
+    )
+    rows = [
+        f"{{ file := {k(s.file)}, func := {k(s.func)}, call := {k(s.call)}, isSorted := {'true' if s.is_sorted else 'false'}, key := {k(s.key)} }}"
+        for s in listing_sites()
+    ]
+    out.append(
+        "/-- every call of a directory-listing primitive (rglob/glob/iglob/iterdir/walk/fwalk/listdir/scandir): is it the first\n"
+        "argument of `sorted(`, and with which `key=` (empty = natural total order of the entries) -/\n"
+        "def listingSites : List ListingSite :=\n  [" + ",\n   ".join(rows) + "]\n"
     )
     out.append("end Dcg.Gen.SetSites")
     return "\n".join(out) + "\n"
